@@ -34,7 +34,7 @@ class SWorld:
 
     def allow(self, body, c):
         n = (body.get('fq') or '').split('::')[-1]
-        return body['file'].endswith(('PlatformSupport/XalanOutputStream.cpp', 'PlatformSupport/XalanOutputStream.hpp')) and n in ('write', 'flushBuffer', 'flushFullBuffer', 'flush')
+        return body['file'].endswith(('PlatformSupport/XalanOutputStream.cpp', 'PlatformSupport/XalanOutputStream.hpp')) and (n in ('write', 'flushBuffer', 'flushFullBuffer', 'flush') or not body.get('cls'))
 
     def destructor(self, o):
         if isinstance(o, Guard):
